@@ -17,7 +17,7 @@ PlanOf(c) ==
     [] c.fmt_plan = "fail_no_read" -> "fail_no_read"
     [] c.fmt_plan = "empty" -> "empty"
     [] c.fmt_plan \in {"ok_no_read", "ok_partial_read"} -> "garbage_no_read"
-    [] c.fmt_plan \in {"near_swap", "near_str_ws", "near_prefix", "near_twice", "near_source_ws", "near_field_swap", "near_swap_raw", "near_str_ws_raw", "near_twice_raw", "near_source_ws_raw"} -> "garbage_after_read"
+    [] c.fmt_plan \in {"near_swap", "near_str_ws", "near_prefix", "near_twice", "near_source_ws", "near_field_swap", "near_swap_raw", "near_str_ws_raw", "near_twice_raw", "near_source_ws_raw", "near_str_case", "near_str_case_raw", "near_drop_last", "near_drop_last_raw"} -> "garbage_after_read"
     [] c.fmt_plan \in {"absent", "noexec", "isdir"} -> "absent"
     [] c.fmt_plan = "ok_utf8_cut" -> "garbage_after_read"
     [] OTHER -> "killed"
